@@ -133,6 +133,8 @@ def run(prog: Program, roots=None, prop="C08") -> Results:
         if bad is not None:
             res.add("R-C08-4", (k, "reflection", norm(bad)), f.loc(bad),
                     f"{k} uses `{norm(bad)}`: a reflective write would be invisible to the mutate-then-raise analysis")
+    if prop == "C08":
+        refusal_guards(prog, res)
     res.tables.append(f"sa/tables/reviewed.py: {len(INFEASIBLE_PAIRS)} infeasible mutate-then-raise pairs (witness re-checked each run), "
                       f"{len(BENIGN_MUTATIONS)} benign text-preserving normalisations")
     res.assumptions = ["the final source.rebuild() is the emission step, not a rejection point (its failures belong to C20)",
@@ -157,3 +159,120 @@ def _origin_of(eng, bykey, root, exc, depth=0, seen=None):
                     if r:
                         return r
     return None
+
+
+def refusal_guards(prog: Program, res: Results) -> None:
+    """R-C08-5: the refusals the property lists are enforced where the corresponding write / construction happens."""
+    from sa.cfg import CFG, edges_establishing
+    from sa.util import callee
+    r = res.rule("R-C08-5", "listed refusals guard the operation itself: (a) every write of a binding found by a one-segment name "
+                 "is dominated by `no attrpath-derived binding has that name` (the value of _find_attrpath_root(set, name) is "
+                 "None); (b) every path segment is constructed under `quoted or non-empty` — inside the finaliser, or at every one "
+                 "of its call sites", floor=4)
+    # (a) overwrite of an attrpath root
+    f = prog.func("_set_value_in_attrset")
+    res.analysed_functions.add(f.key)
+    cfg = CFG(f.node)
+    roots = [n.targets[0].id for n in walk_no_nested(f.node) if isinstance(n, ast.Assign) and isinstance(n.targets[0], ast.Name)
+             and isinstance(n.value, ast.Call) and callee(n.value) == "_find_attrpath_root"]
+    if len(roots) != 1:
+        res.unclass("_set_value_in_attrset: the `_find_attrpath_root(...)` lookup was not found exactly once")
+        return
+    root = roots[0]
+    seg_param = next((n.targets[0].id for n in walk_no_nested(f.node) if isinstance(n, ast.Assign) and isinstance(n.targets[0], ast.Name)
+                      and isinstance(n.value, ast.Call) and callee(n.value) == "_parse_npath"), "segments")
+
+    def one_segment(a, truth):
+        t = norm(a)
+        return (t == f"len({seg_param}) == 1" and truth is True) or (t == f"len({seg_param}) != 1" and truth is False) or \
+               (t in (f"len({seg_param}) > 1", f"len({seg_param}) >= 2") and truth is False)
+
+    def no_family(a, truth):
+        t = norm(a)
+        return (t == f"{root} is None" and truth is True) or (t == f"{root} is not None" and truth is False) or (t == root and truth is False)
+
+    e_one = edges_establishing(cfg, one_segment)
+    e_nf = edges_establishing(cfg, no_family)
+    if not e_one:
+        res.unclass("_set_value_in_attrset: the one-segment branch (`len(segments) == 1`) was not recognised")
+        return
+    value_param = next((p_ for p_ in f.params() if "value" in p_), "value_expr")
+    writes = []
+    for n in cfg.nodes:
+        a = n.ast
+        if not isinstance(a, ast.Assign) or norm(a.value) != value_param:
+            continue
+        t = a.targets[0]
+        if (isinstance(t, ast.Attribute) and t.attr == "value") or isinstance(t, ast.Subscript):
+            if cfg.all_paths_pass(n, cut_edges=e_one):
+                writes.append(n)
+    for n in writes:
+        r.instances += 1
+        ok = bool(e_nf) and cfg.all_paths_pass(n, cut_edges=e_nf)
+        r.ob(ok, {"site": f.key, "write": norm(n.ast), "guard": f"{root} is None"})
+        if not ok:
+            res.add("R-C08-5", (f.key, "name overwritten without the attrpath-root refusal", norm(n.ast.targets[0])[:40]), f.loc(n.ast),
+                    f"{f.key}: `{norm(n.ast)}` (one-segment path) is reachable while `{root}` — an attrpath-derived binding of the same "
+                    f"name anywhere in the set — may exist: `set a V` on `a = {{ x = 1; }}; a.y = 2;` is no longer refused and leaves "
+                    f"two conflicting definitions of `a`")
+    # (b) empty segments
+    g = prog.func("_parse_npath")
+    res.analysed_functions.add(g.key)
+    for h in [g] + list(g.nested.values()):
+        ctors = [c for c in walk_no_nested(h.node) if isinstance(c, ast.Call) and callee(c) == "_NPathSegment"]
+        if not ctors:
+            continue
+        hcfg = CFG(h.node)
+        for c in ctors:
+            r.instances += 1
+            name_arg = next((k.value for k in c.keywords if k.arg == "name"), c.args[0] if c.args else None)
+            q_arg = next((k.value for k in c.keywords if k.arg == "quoted"), c.args[1] if len(c.args) > 1 else None)
+            nm, q = norm(name_arg) if name_arg is not None else None, norm(q_arg) if q_arg is not None else None
+            # what `name` is joined from (buffer)
+            buf = None
+            for d in ast.walk(h.node):
+                if isinstance(d, ast.Assign) and norm(d.targets[0]) == nm and isinstance(d.value, ast.Call) and callee(d.value) == "join" and d.value.args:
+                    buf = norm(d.value.args[0])
+
+            def nonempty_or_quoted(a, truth, _nm=nm, _q=q, _buf=buf):
+                t = norm(a)
+                if truth is False:
+                    # (not quoted and name == "") is false, or its De-Morgan parts
+                    return t in (f"{_nm} == ''", f"not {_nm}", f"not {_buf}", f"len({_nm}) == 0") or t == f"not {_q}"
+                return t in (_q, _nm, _buf, f"{_nm} != ''", f"len({_nm}) > 0")
+
+            def guard_edges(cf):
+                out = []
+                for n in cf.nodes:
+                    if n.kind != "test":
+                        continue
+                    # the raising test `not quoted and name == ''`: its False edge establishes quoted or non-empty
+                    from sa.cfg import atoms
+                    for label in (True, False):
+                        facts = list(atoms(n.ast, label))
+                        if label is False and isinstance(n.ast, ast.BoolOp) and isinstance(n.ast.op, ast.And):
+                            parts = [norm(v) for v in n.ast.values]
+                            if any(p_ in (f"not {q}",) for p_ in parts) and any(p_ in (f"{nm} == ''", f"not {nm}", f"not {buf}") for p_ in parts) and len(parts) == 2:
+                                out.append((n, False))
+                        elif any(nonempty_or_quoted(a, t) for a, t in facts) and not (isinstance(n.ast, ast.BoolOp) and label is False):
+                            out.append((n, label))
+                return out
+
+            node = hcfg.containing(c)
+            inside = node is not None and hcfg.all_paths_pass(node, cut_edges=guard_edges(hcfg))
+            ok = inside
+            where = "inside the finaliser"
+            if not inside and h is not g:
+                # every call site of the finaliser must be guarded
+                pcfg = CFG(g.node)
+                ge = guard_edges(pcfg)
+                sites = [n for n in pcfg.nodes if n.ast is not None and n.kind in ("stmt", "test", "return") and any(
+                    isinstance(x, ast.Call) and isinstance(x.func, ast.Name) and x.func.id == h.name for x in ast.walk(n.ast))]
+                unguarded = [n for n in sites if not pcfg.all_paths_pass(n, cut_edges=ge)]
+                ok = bool(sites) and not unguarded
+                where = f"at {len(sites) - len(unguarded)}/{len(sites)} call sites"
+            r.ob(ok, {"site": h.key, "constructor": norm(c)[:60], "guarded": where})
+            if not ok:
+                res.add("R-C08-5", (h.key, "segment constructed without the empty-segment refusal"), h.loc(c),
+                        f"{h.key}: `{norm(c)[:60]}` can be reached with an unquoted empty name ({where}): a path such as `a.` (trailing "
+                        f"dot) is accepted and `set` writes a `\"\" = …;` binding instead of raising ValueError")
